@@ -168,8 +168,95 @@ type classResolver struct {
 	busy map[ssa.Value]bool
 }
 
-func (cr *classResolver) wgClass(v ssa.Value) classSet {
+func (cr *classResolver) wgClass(v ssa.Value) classSet { return cr.wgClassD(v, 0) }
+
+func (cr *classResolver) wgClassD(v ssa.Value, depth int) classSet {
 	cs := classSet{}
+	if depth < 4 {
+		switch x := v.(type) {
+		case *ssa.Parameter:
+			// a *sync.WaitGroup handed to a private helper: the groups of the callers' arguments
+			h := x.Parent()
+			idx := -1
+			for i, q := range h.Params {
+				if q == x {
+					idx = i
+				}
+			}
+			for _, site := range cr.w.callers[h] {
+				if site.Parent().Synthetic != "" || site.Common().StaticCallee() != h || idx < 0 || idx >= len(site.Common().Args) {
+					continue
+				}
+				cs.union(cr.wgClassD(site.Common().Args[idx], depth+1))
+			}
+			if len(cs) > 0 {
+				return cs
+			}
+		case *ssa.FreeVar:
+			// captured by a closure: what was bound (a helper's pointer parameter stays the callers' group)
+			clo := x.Parent()
+			idx := -1
+			for i, q := range clo.FreeVars {
+				if q == x {
+					idx = i
+				}
+			}
+			if par := clo.Parent(); par != nil && idx >= 0 {
+				for _, b := range par.Blocks {
+					for _, in := range b.Instrs {
+						if mc, ok := in.(*ssa.MakeClosure); ok && mc.Fn == ssa.Value(clo) && idx < len(mc.Bindings) {
+							switch mc.Bindings[idx].(type) {
+							case *ssa.Parameter, *ssa.FreeVar:
+								cs.union(cr.wgClassD(mc.Bindings[idx], depth+1))
+							}
+						}
+					}
+				}
+			}
+			if len(cs) > 0 {
+				return cs
+			}
+		case *ssa.UnOp:
+			// the pointer parameter moved into a cell because a closure captures it: *cell, in the
+			// helper itself (cell = Alloc) or in the closure (cell = FreeVar bound to that Alloc)
+			if x.Op == token.MUL {
+				cell := x.X
+				if fv, ok := cell.(*ssa.FreeVar); ok {
+					clo := fv.Parent()
+					idx := -1
+					for i, q := range clo.FreeVars {
+						if q == fv {
+							idx = i
+						}
+					}
+					if par := clo.Parent(); par != nil && idx >= 0 {
+						for _, b := range par.Blocks {
+							for _, in := range b.Instrs {
+								if mc, ok := in.(*ssa.MakeClosure); ok && mc.Fn == ssa.Value(clo) && idx < len(mc.Bindings) {
+									cell = mc.Bindings[idx]
+								}
+							}
+						}
+					}
+				}
+				if al, ok := cell.(*ssa.Alloc); ok && al.Referrers() != nil {
+					var stored []ssa.Value
+					for _, ref := range *al.Referrers() {
+						if st, ok := ref.(*ssa.Store); ok && st.Addr == ssa.Value(al) {
+							stored = append(stored, st.Val)
+						}
+					}
+					if len(stored) == 1 {
+						if par, ok := stored[0].(*ssa.Parameter); ok {
+							if c := cr.wgClassD(par, depth+1); len(c) > 0 && !c.has("wg:?") {
+								return c
+							}
+						}
+					}
+				}
+			}
+		}
+	}
 	switch x := v.(type) {
 	case *ssa.FieldAddr:
 		if f, ok := fieldOf(x); ok {
